@@ -105,14 +105,6 @@ Definition agree (v : variant) (c : tcase) : bool := agree_run v (tc_ds c) rstor
     are exactly the edges of the graph implied by the latest versions (as of [at_]) in the named
     datasets that exist, each once.  The versions are those of the repaired write path
     (a write identical to the current version adds nothing, any other adds one: C02). *)
-Fixpoint tinsert (x : Z * Z * Z) (l : list (Z * Z * Z)) : list (Z * Z * Z) :=
-  match l with
-  | [] => [x]
-  | y :: l' => if lex_ltb [fst (fst y); snd (fst y); snd y] [fst (fst x); snd (fst x); snd x]
-               then y :: tinsert x l' else x :: l
-  end.
-Definition tsort (l : list (Z * Z * Z)) : list (Z * Z * Z) := fold_right tinsert [] l.
-
 Definition spec_edges (st : store) (known : list uri) (dss : list Z)
            (starts : list uri) (pred : Z) (inverse : bool) (req : list Z) (at_ : Z) : list (Z * Z * Z) :=
   if forallb (fun s => zmem s known) starts then
@@ -121,20 +113,32 @@ Definition spec_edges (st : store) (known : list uri) (dss : list Z)
                  else graph_out st at_ (spec_scope dss req) s pred)) starts
   else [].
 
+Definition tmem3 (x : Z * Z * Z) (l : list (Z * Z * Z)) : bool := existsb (trip3_eqb x) l.
+Definition sub3 (a b : list (Z * Z * Z)) : bool := forallb (fun x => tmem3 x b) a.
+Fixpoint nodup3 (l : list (Z * Z * Z)) : bool :=
+  match l with [] => true | x :: l' => negb (tmem3 x l') && nodup3 l' end.
+
+(** everything returned is an edge of the graph, every edge is returned, nothing is returned twice *)
 Definition spec_op_ok (dss : list Z) (rs : rstore) (o : qop) : bool :=
   match o with
   | QRelated starts pred inverse req at_ limits o_pages =>
     match o_pages with
-    | Some ops => list_eqb trip3_eqb (tsort (concat ops)) (tsort (spec_edges (rs_st rs) (rs_known rs) dss starts pred inverse req at_))
+    | Some ops =>
+      let obs := concat ops in
+      let exp := spec_edges (rs_st rs) (rs_known rs) dss starts pred inverse req at_ in
+      sub3 obs exp && sub3 exp obs && nodup3 obs
     | None => negb (Z.eqb pred 0) && negb (zmem pred (rs_known rs))
     end
   | _ => true
   end.
 
+(** the versions are those of the write path with the repaired equality (F01a) and duplicate handling (F02a);
+    F02b (a nested entity never compares equal) only adds versions with identical content and does not
+    change any latest version, hence not the graph *)
 Fixpoint spec_run (dss : list Z) (rs : rstore) (ops : list qop) : bool :=
   match ops with
   | [] => true
-  | QWrite w :: ops' => spec_run dss (rapply eq_full DupLocalElseStored rs w) ops'
+  | QWrite w :: ops' => spec_run dss (rapply (v_eq v_fixed) (v_dup v_fixed) rs w) ops'
   | o :: ops' => spec_op_ok dss rs o && spec_run dss rs ops'
   end.
 Definition spec_ok (c : tcase) : bool := spec_run (tc_ds c) rstore0 (tc_ops c).
@@ -149,7 +153,7 @@ Fixpoint unexplained_run (dss : list Z) (rc rf : rstore) (ops : list qop) : bool
   match ops with
   | [] => false
   | QWrite w :: ops' =>
-    unexplained_run dss (rapply (v_eq v_current) (v_dup v_current) rc w) (rapply eq_full DupLocalElseStored rf w) ops'
+    unexplained_run dss (rapply (v_eq v_current) (v_dup v_current) rc w) (rapply (v_eq v_fixed) (v_dup v_fixed) rf w) ops'
   | o :: ops' => (negb (spec_op_ok dss rf o) && negb (agree_op v_current dss rc o)) || unexplained_run dss rc rf ops'
   end.
 Definition unexplained (c : tcase) : bool := unexplained_run (tc_ds c) rstore0 rstore0 (tc_ops c).
